@@ -3,6 +3,7 @@
 From Coq Require Export ZArith.
 From AGH Require Import Base.Run.
 From AGH Require Export Model.ClientIndex Model.ClientIDCache.
+From AGH Require Export Run.C04Conf.
 From AGH Require Model.Schedule.
 Local Open Scope N_scope.
 
@@ -47,7 +48,11 @@ Inductive case :=
           (steps : list (hstep * obs * aobs))
   (* interleaved HandleBefore / processInitial events on the real Server with
      what processInitial put into dctx.clientID *)
-  | CHand (evs : list (ev * option bytes)).
+  | CHand (evs : list (ev * option bytes))
+  (* round 3, configuration round trip (Run/C04Conf.v): file objects (with the
+     uid NewUID gave when the object has none) -> Init -> forConfig -> Init *)
+  | CConf (env : henv) (probes : list (bytes * addr)) (g : settings)
+          (objs : list (uid * cobj)) (res1 : cres) (res2 : option cres).
 
 Definition err_code (e : err) : N :=
   match e with
@@ -125,6 +130,8 @@ Definition case_ok (c : case) : bool :=
   match c with
   | CHist finds names acfs g env gb0 steps => replay finds names acfs g env empty_index [] gb0 steps
   | CHand evs => replay_ev [] evs
+  | CConf env probes g objs res1 res2 =>
+      conf_ok err_code eqb_settings (cfg_of env) (he_known env) probes g objs res1 res2
   end.
 
 Definition mismatches := Base.Run.mismatches case_ok.
@@ -151,6 +158,9 @@ Fixpoint explain_ev (c : cache) (evs : list (ev * option bytes)) : list (option 
 Definition explain (c : case) :=
   match c with
   | CHist finds names acfs g env gb0 steps =>
-      (explain_steps finds names acfs g env empty_index [] gb0 steps, @nil (option bytes))
-  | CHand evs => ([], explain_ev [] evs)
+      (explain_steps finds names acfs g env empty_index [] gb0 steps, @nil (option bytes),
+       @None (cres * option cres))
+  | CHand evs => ([], explain_ev [] evs, None)
+  | CConf env probes g objs _ _ =>
+      ([], [], Some (conf_model err_code (cfg_of env) (he_known env) probes g objs))
   end.
